@@ -60,6 +60,8 @@ def gen_case(rng, i, tier):
     if rng.random() < 0.45:
         mcase.tighten(case, rng)
     case["ops"] = gen.gen_history(rng, len(case["trace"]), case["cfg"]["width"], allow_cwd=False, max_ops=2)
+    if not case.get("large") and not case["map"].get("latlon"):
+        gen.add_pre_trace(rng, case)
     return case
 
 
